@@ -84,6 +84,17 @@ def fam_classmap_bytes(q):
         lambda s, g: len(s["indexed"]), q
 
 
+def fam_gattr_value(q):
+    """a glyph attribute value around the largest storable one (16-bit signed: 32767)"""
+    return (HDR + "table(glyph) cA = glyphid(3..6) {big = %d}; cB = glyphid(7..10); endtable;\ntable(sub) cA > cB; endtable;\n" % q), [], \
+        lambda s, g: [v for a, v in g["glat"]["glyphs"][3]["attrs"] if abs(v) > 30000], [q]
+
+
+def fam_gattr_value_neg(q):
+    return (HDR + "table(glyph) cA = glyphid(3..6) {big = -%d}; cB = glyphid(7..10); endtable;\ntable(sub) cA > cB; endtable;\n" % q), [], \
+        lambda s, g: [v for a, v in g["glat"]["glyphs"][3]["attrs"] if abs(v) > 30000], [-q]
+
+
 def fam_glat_bytes(q, opts=()):
     """q glyph attributes on each of ~1090 glyphs: the glyph attribute data crosses 65535 bytes (16-bit Gloc offsets) near
     q = 29; the last glyphs' values must still be read back."""
@@ -108,6 +119,8 @@ FAMILIES = [
     ("action_block_size", fam_actions, [1500, 2100, 2200, 3000], 200),
     ("replacement_classes_v2", fam_classes_v2, [100, 127, 128, 129, 300], 200),
     ("class_map_bytes", fam_classmap_bytes, [40, 54, 55, 70, 100], 230),
+    ("glyph_attr_value", fam_gattr_value, [32766, 32767, 32768, 32769, 70000], 120),
+    ("glyph_attr_value_negative", fam_gattr_value_neg, [32767, 32768, 32769, 70000], 120),
     ("glat_bytes", fam_glat_bytes, [20, 28, 29, 30, 40], 1100),
     ("glat_bytes_compressed", fam_glat_bytes_c, [20, 28, 29, 30, 40], 1100),
 ]
@@ -128,7 +141,7 @@ def run(tier, seed, replay=None):
             fontb, _g, _c = ttf.simple_font(nglyphs)
         else:
             fontb = font
-        for q in qs if (tier == "thorough" or fname in ("class_map_bytes", "glat_bytes", "glat_bytes_compressed")) else qs[:4]:
+        for q in qs if (tier == "thorough" or fname in ("class_map_bytes", "glat_bytes", "glat_bytes_compressed", "glyph_attr_value")) else qs[:4]:
             gdl, opts, reader, true_value = fam(q)
             d = os.path.join(work, "%s_%d" % (fname, q))
             os.makedirs(d)
@@ -200,7 +213,7 @@ def run(tier, seed, replay=None):
     rep.coverage.update({
         "programs": stats["cases"], "traces_validated_against_impl": stats["cases"], "disagreements_checked": len(rep.violations),
         "evaluations": stats["cases"], "distinct_nontrivial": len(distinct), "outcomes": table,
-        "rule": "13 size-parameterised families x 4-5 sizes around each limit; distinct = distinct (family, size, outcome)",
+        "rule": "15 size-parameterised families x 4-5 sizes around each limit; distinct = distinct (family, size, outcome)",
         "samples": samples, "exhaustive": False,
     })
     rep.assumptions += ["field widths are my reading of GTF; limits are re-extracted from constants.h",
